@@ -929,8 +929,10 @@ def _tensorclass(cls: T, *, frozen, shadow: bool) -> T:
         setattr(cls, method_name, _wrap_td_method(method_name))
     for method_name in _FALLBACK_METHOD_FROM_TD_NOWRAP:
         if not hasattr(cls, method_name) and method_name not in expected_keys:
-            is_property = isinstance(
-                getattr(TensorDictBase, method_name, None), property
+            td_attr = getattr(TensorDictBase, method_name, None)
+            # plain class attributes (e.g. is_meta) are read like properties, not called
+            is_property = isinstance(td_attr, property) or (
+                td_attr is not None and not callable(td_attr)
             )
             setattr(
                 cls,
